@@ -3,7 +3,8 @@
  4 remove_node n | 5 remove_nodes_from ns | 6 remove_edge u v et | 7 remove_edges_from [[u,v]..] et | 8 clear_edges et
  9 add_edge_type name kind [[u,v]..] | 10 remove_edge_type name | 11 graph.update attrs | 12 copy | 13 subgraph ns
  14 clear
- bulk ops (1, 3, 5, 7) take an optional trailing container flavour: 0 list, 1 tuple, 2 generator, 3 set (where hashable);
+ bulk ops (1, 3, 5, 7, 13) take an optional trailing container flavour: 0 list, 1 tuple, 2 generator, 3 set, 4 frozenset,
+ 5 dict keys (where hashable), 6 str of one-character labels (else list);
  their element lists may be empty, contain duplicates (also {u,v} / {v,u} twice) and absent elements
  et: 0 directed 1 bidirected 2 undirected 3 extra 4 "all"; kind: 0 nx.Graph 1 nx.DiGraph; attrs [[key, value]..]."""
 import itertools
@@ -78,7 +79,7 @@ def random_history(rng, cls, length, N=4, max_objs=4):
         return u, v
 
     def flav():
-        return rng.choice([0, 0, 0, 1, 2, 2, 3])
+        return rng.choice([0, 0, 0, 1, 1, 2, 2, 3, 4, 5, 6])
 
     def bulk(items):
         """boundary variants of a bulk argument: empty, duplicated elements, as generated"""
@@ -173,7 +174,7 @@ def random_history(rng, cls, length, N=4, max_objs=4):
         else:
             if len(layers) >= max_objs:
                 continue
-            op = [13, o, sorted(rng.sample(range(N), rng.randint(1, N)))]
+            op = [13, o, bulk(sorted(rng.sample(range(N), rng.randint(1, N)))), flav()]
             layers.append(set(layers[o]))
         ops.append(op)
     return ops
